@@ -22,8 +22,19 @@ class KeyRec(e8.SymRec):
             inner = v[1]
             if inner[0] == "proj" and inner[2] == "field" and inner[3] == "mark" and inner[1] == ("proj", ("in", 1), "deref", None):
                 return "cur"
+            if inner[0] == "in" and self._copy_of_cursor(inner[1]):
+                return "cur"
             return "key"
         return None
+
+    def _copy_of_cursor(self, l):
+        """local l is assigned once, from self.mark (`let mark = self.mark;`)"""
+        f = self.f
+        defs = cfg.defs_of_local(f, l)
+        if len(defs) != 1 or defs[0][0] != "stmt" or defs[0][3]["rv"]["k"] != "use":
+            return False
+        e = cfg.expr_operand(f, defs[0][3]["rv"]["a"], 4)
+        return e[0] == "place" and e[1] == ("param", 1) and [x for x in e[2] if x != "deref"] == [("field", "mark")]
 
     def leaf(self, v):
         k = self._idx(v)
